@@ -1850,6 +1850,10 @@ class SymEval:
                 try:
                     base[idx] = v
                 except (IndexError, ValueError, TypeError) as e:
+                    if isinstance(e, ValueError) and 'broadcast' in str(e):       # numpy refuses these shapes for real arrays too
+                        if self.try_depth > 0:
+                            raise _PyRaise('ValueError', e)
+                        raise WouldRaise('ValueError: %s in store into %s' % (e, norm(t)))
                     raise Opaque('store into %s: %s' % (norm(t), e))
             elif isinstance(base, (sp.Basic, int, float, tuple, str)) and not isinstance(base, bool):
                 # a number (numpy scalar), tuple or str does not support item assignment
